@@ -146,7 +146,11 @@ def convert(trace_path, out_path):
                 out.write(json.dumps(ev) + "\n")
             # statements taken out of the plan (restat pruning) after the last status line was written: that line is a snapshot
             # with the larger total.  H1 sees the Status calls; for the real binary a restat statement in the graph is enough.
-            out.write(json.dumps({"e": "End", "ok": ok, "pruned": bool(inv.get("pruned") or (inv["mode"] == "h2" and restat_graph)), "src": src}) + "\n")
+            # C19: a dry run lists every command it goes through (nothing runs, so there is no console to keep quiet for)
+            listed = {t["s"] for _, t in toks if t.get("k") == "status"}
+            went = {f["s"] for kind, f, _ in inv["calls"] if kind == "Started"}
+            unlisted = sorted(went - listed) if inv.get("dry") else []
+            out.write(json.dumps({"e": "End", "ok": ok, "dry": bool(inv.get("dry")), "unlisted": unlisted, "pruned": bool(inv.get("pruned") or (inv["mode"] == "h2" and restat_graph)), "src": src}) + "\n")
             n_inv += 1
             inv = None
 
@@ -161,7 +165,7 @@ def convert(trace_path, out_path):
                 restat_graph = any(st.get("restat") or st.get("ddr") for st in j["g"].get("stmts", []))
             elif e == "Printer":
                 finish(False, ln)
-                inv = {"mode": j["mode"], "verbose": j.get("verbose", False), "fmt": j.get("fmt", ""), "calls": [], "chunks": [], "info": {}, "src": ln}
+                inv = {"mode": j["mode"], "verbose": j.get("verbose", False), "fmt": j.get("fmt", ""), "dry": j.get("dry", False), "calls": [], "chunks": [], "info": {}, "src": ln}
             elif inv is not None and e == "St":
                 c = j["c"]
                 if c == "started":
